@@ -4,3 +4,7 @@
 // R6: a formatted string whose text no proof may depend on
 #[verifier::external_body] pub fn vx_opaque_string() -> (r: String) { String::new() }
 // ============================ end of std stubs ============================
+// R21: next value of an auxiliary-name counter (the value is abstracted: names are opaque strings, R6)
+#[verifier::external_body] pub fn vx_counter_next(c: u32) -> (r: u32) { c.wrapping_add(1) }
+// arm masking (DESIGN §3.1): an arm that is not part of the slice being verified ends in this diverging stub
+#[verifier::external_body] pub fn vx_arm_not_in_slice() -> ! { unimplemented!() }
